@@ -294,6 +294,48 @@ def applyLocate (geom coords : Pows × Bool) (tol maxdist : Option (Pows × Bool
   else if !okOpt geom.1 maxdist then .error .dimension
   else .ok ()
 
+
+/-! ### compositions of operators -/
+
+/-- an expression over quantities: leaves carry a dimension, nodes are the arithmetic operators / NumPy functions -/
+inductive Expr
+  | leaf (d : Pows)
+  | mul (a b : Expr) | div (a b : Expr) | pow (a : Expr) (q : Rat) | sqrt (a : Expr)
+  | addLike (a b : Expr)          -- + - % maximum minimum hypot
+  | unary (a : Expr)              -- neg abs sum mean max getitem …
+
+/-- the dimension the handlers compute for an expression (`DimensionError` at the first add-like node whose operands differ) -/
+def Expr.dim : Expr → Except Err Pows
+  | .leaf d => .ok d
+  | .mul a b => do let x ← a.dim; let y ← b.dim; pure (C20.mul x y)
+  | .div a b => do let x ← a.dim; let y ← b.dim; pure (C20.div x y)
+  | .pow a q => do let x ← a.dim; pure (C20.pow x q)
+  | .sqrt a => do let x ← a.dim; pure (C20.pow x (1/2))
+  | .addLike a b => do let x ← a.dim; let y ← b.dim; if x ≠ y then throw .dimension else pure x
+  | .unary a => a.dim
+
+/-- specification: the exponent of base `k` by exact arithmetic on the leaves' exponents -/
+def Expr.expo (k : Base) : Expr → Rat
+  | .leaf d => get d k
+  | .mul a b => a.expo k + b.expo k
+  | .div a b => a.expo k - b.expo k
+  | .pow a q => a.expo k * q
+  | .sqrt a => a.expo k * (1/2)
+  | .addLike a _ => a.expo k
+  | .unary a => a.expo k
+
+/-- specification: every add-like node combines operands with the same exponents -/
+def Expr.Consistent : Expr → Prop
+  | .leaf _ => True
+  | .mul a b | .div a b => a.Consistent ∧ b.Consistent
+  | .pow a _ | .sqrt a | .unary a => a.Consistent
+  | .addLike a b => a.Consistent ∧ b.Consistent ∧ ∀ k, a.expo k = b.expo k
+
+def Expr.LeavesCanon : Expr → Prop
+  | .leaf d => Canon d
+  | .mul a b | .div a b | .addLike a b => a.LeavesCanon ∧ b.LeavesCanon
+  | .pow a _ | .sqrt a | .unary a => a.LeavesCanon
+
 /-! ### the trusted classification: which homogeneity law does a dispatched function obey -/
 
 /-- Homogeneity laws.  `λ`, `μ` range over positive scale factors (a change of the reference unit). -/
